@@ -470,7 +470,8 @@ func init() {
 			} else {
 				res = in.abiPack(e, sliceOf(in, a[2])).(Tuple)
 				if method {
-					if bs, ok := res[0].(SliceV); ok && bs != nil {
+					if ei, isI := res[1].(Iface); isI && ei.T == nil {
+						bs, _ := res[0].(SliceV)
 						id := make(SliceV, 4)
 						for i := range id {
 							id[i] = in.tt.BVU(uint64(e.ID[i]), 8)
